@@ -18,7 +18,7 @@
    Strict = TRUE these are not excepted and TLC must report them).                       *)
 EXTENDS Cdef, SequencesExt
 
-CONSTANT Variants     \* subset of {"faithful", "strict", "susort", "nolen", "dollar", "negmask", "filetwice", "signedlowbyte"}
+CONSTANT Variants     \* subset of {"faithful", "strict", "susort", "nolen", "dollar", "negmask", "filetwice", "signedlowbyte", "zerowidth-as-field"}
 VARIABLE variant      \* chosen at Init, never changes.  "faithful": the transcription; "strict": the
                       \* transcription, but no documented divergence class is excepted (TLC must
                       \* report them); the others are deliberately broken transcriptions (non-vacuity)
@@ -176,7 +176,10 @@ SUEntry(ev, idx, t) ==
     fields |-> IF SUComplete(ev, t) /\ t \notin ev.inc
                THEN LET fs == ev.su[t].fields
                     IN Tup([i \in DOMAIN fs |-> [ name |-> fs[i][1],
-                                              op |-> IF fs[i][3] = Unk THEN OP_NOOP ELSE OP_BITFIELD,
+                                              \* _struct_ctx: "if fbitsize >= 0: op = OP_BITFIELD" (also for ":0");
+                                              \* variant "zerowidth-as-field" tests fbitsize > 0
+                                              op |-> IF fs[i][3] = Unk \/ (variant = "zerowidth-as-field" /\ fs[i][3] = 0)
+                                                     THEN OP_NOOP ELSE OP_BITFIELD,
                                               arg |-> idx[fs[i][2]], bits |-> fs[i][3] ]])
                ELSE <<>> ]
 
@@ -312,8 +315,10 @@ LazyFields(M, W, ctname) ==
   LET n == Search(M.structs, UnrealizeName(ctname))
   IN IF n < 0 THEN <<"lost a struct/union!">>
      ELSE LET fs == M.structs[n + 1].fields
-          IN [i \in DOMAIN fs |-> << fs[i].name, Rz(M, W, fs[i].arg),
-                                     IF fs[i].op = OP_BITFIELD THEN D4(fs[i].bits) ELSE Unk >>]
+              all == Tup([i \in DOMAIN fs |-> << fs[i].name, Rz(M, W, fs[i].arg),
+                                            IF fs[i].op = OP_BITFIELD THEN D4(fs[i].bits) ELSE Unk >>])
+          \* b_complete_struct_or_union: an unnamed bit-field only takes room, it is no member
+          IN Members(all, all)
 
 (* ------------------------------------------------------------------ projection of the decoded module *)
 \* ffi.typeof("n"): parse_c_type: search_in_typenames -> OP_TYPENAME -> ctx.types[type_index]
@@ -411,7 +416,7 @@ SUBad(ev, M, W, key, strict) ==      \* TRUE iff the decoded aggregate differs f
            /\ Len(o.fields) = Len(i.fields)
            /\ \A f \in DOMAIN i.fields :
                  /\ o.fields[f][1] = i.fields[f][1] /\ o.fields[f][3] = i.fields[f][5]
-                 /\ (strict \/ ~MentionsForced(ev, ev.su[key].fields[f][2])) => o.fields[f][2] = i.fields[f][2] )
+                 /\ (strict \/ ~MentionsForced(ev, Members(ev.su[key].fields, ev.su[key].fields)[f][2])) => o.fields[f][2] = i.fields[f][2] )
 
 EnBad(ev, M, W, g) ==
   LET o == OolEnum(M, W, g)
